@@ -22,6 +22,7 @@
 import GfsModel.Cpp
 import GfsSpec.Grammar
 import GfsProofs.CppLemmas
+import GfsProps.C15
 import GfsGen.Facts
 import GfsModel.ExpectedSrc
 
@@ -35,6 +36,11 @@ open Gfs Gfs.Spec Gfs.Proofs
 theorem C19_parse (s : Bytes) (fs : FrameSet) (h : FrameSet.parse s = .ok fs) (hlen : fs.len ≠ 0) :
     Cpp.parse s = .ok fs :=
   cpp_parse_eq s fs h hlen
+
+/-- … and both libraries' `isFrameRange` say yes to it (the Go side is C15_isFrameRange). -/
+theorem C19_isFrameRange (s : Bytes) (fs : FrameSet) (h : FrameSet.parse s = .ok fs) :
+    Cpp.isFrameRange s = .ok true ∧ isFrameRange s = true := by
+  exact ⟨cpp_isFrameRange_of_parse s fs h, (Gfs.Props.C15.C15_isFrameRange s).2 ⟨fs, h⟩⟩
 
 /-- `zfill(Frame, int)` of the port prints what `zfillInt` / `%0Nd` of the Go library prints,
     for every value and every width (so frame paths agree once the components agree). -/
